@@ -10,7 +10,7 @@
 (***************************************************************************)
 EXTENDS LedgerOps, TransmitterOps
 
-CONSTANTS Grid, Events, Lats, Delays, Targets, ChainSeq, ChainLtd, ChainExp, YearLen, Thr, MaxSteps, ResetAnywhere,
+CONSTANTS Grid, Events, Lats, Delays, Targets, ChainSeq, ChainLtd, ChainExp, ChainOffset, YearLen, Thr, MaxSteps, ResetAnywhere,
           ClockScope, RuinStep,
           MaxCalls      \* bound on the total number of calls of A and B together
 
